@@ -73,6 +73,10 @@ pub struct IoCfg {
     pub pend_flush: u32,
     pub pend_shutdown: u32,
     pub vectored: bool,
+    /// the writer answers Pending (waking itself) on every other `poll_write` call: the
+    /// first attempt of a task poll fails and an immediate retry succeeds, as happens when a
+    /// socket becomes writable between two attempts
+    pub pend_write_alt: bool,
 }
 
 impl IoCfg {
@@ -85,6 +89,7 @@ impl IoCfg {
             pend_flush: 0,
             pend_shutdown: 0,
             vectored: false,
+            pend_write_alt: false,
         }
     }
 }
@@ -168,7 +173,7 @@ impl Net {
     }
 
     pub fn io(&self, side: usize, cfg: IoCfg, tape: Tape) -> SimIo {
-        SimIo { net: self.clone(), side, cfg, tape }
+        SimIo { net: self.clone(), side, cfg, tape, write_calls: 0 }
     }
 
     pub fn lock(&self) -> std::sync::MutexGuard<'_, NetInner> {
@@ -321,6 +326,7 @@ pub struct SimIo {
     side: usize,
     cfg: IoCfg,
     tape: Tape,
+    write_calls: u64,
 }
 
 impl SimIo {
@@ -440,6 +446,12 @@ impl SimIo {
         if room == 0 {
             n.dirs[d].writer_waker = Some(cx.waker().clone());
             n.faults.hit("backpressure");
+            return Poll::Pending;
+        }
+        self.write_calls += 1;
+        if self.cfg.pend_write_alt && self.write_calls % 2 == 1 {
+            n.faults.hit("pending_write_alternating");
+            cx.waker().wake_by_ref();
             return Poll::Pending;
         }
         if self.tape.chance(Lane::Io, self.cfg.pend_write, 100) {
